@@ -110,7 +110,7 @@ theorem discrete_rejected (p : Params) (i : Input) (hm : p.method = .io ∨ p.me
     Bool.not_eq_true'] at h
   rcases hm with hm | hm
   all_goals
-    rcases h with (((((h | h) | h) | h) | h) | h) | h
+    rcases h with ((((((h | h) | h) | h) | h) | h) | h) | h
     · exact guard_fires_rejected p i (!p.priors && effPop p == .absent) (.valueError .popMissing)
         (by simp [checks, hm, initGuards]) (by simp [h.1, h.2])
     · exact guard_fires_rejected p i (p.priors && effPop p != .absent) (.valueError .popAndPriors)
@@ -132,6 +132,8 @@ theorem discrete_rejected (p : Params) (i : Input) (hm : p.method = .io ∨ p.me
         (by simp [checks, hm, initGuards]) (by simp [h])
     · exact guard_fires_rejected p i (p.numThreads == .bad && p.mutationRate != .absent)
         (.valueError .numThreads) (by simp [checks, hm, initGuards]) (by simp [h.1, h.2])
+    · exact guard_fires_rejected p i (p.mutationRate == .bad) (.valueError .rateNotPositive)
+        (by simp [checks, hm, initGuards]) (by simp [h])
 
 /-- **Invalid parameters are rejected** — every combination of parameters and inputs in which one of
 the guarded invalid classes occurs ends in an exception, whatever the other parameters are. -/
@@ -189,18 +191,19 @@ theorem ok_implies_kernel_preconditions (p : Params) (i : Input) (s : Shape)
   exact ⟨h1, h2, h4, h3, h8, h7, h5, h6⟩
 
 /-- The same for the discrete methods (`constrain_ages` preconditions, a usable population size or
-prior, a known probability space). -/
+prior, a known probability space, a rate that — if given — is positive). -/
 theorem ok_implies_kernel_preconditions_discrete (p : Params) (i : Input) (s : Shape)
     (h : outcome p i = .ok s) (hm : p.method = .io ∨ p.method = .mx) :
-    p.minBranchLength ≠ .bad ∧ p.constrIterations ≠ .bad ∧ p.probSpace ≠ .bad := by
+    p.minBranchLength ≠ .bad ∧ p.constrIterations ≠ .bad ∧ p.probSpace ≠ .bad ∧
+    p.mutationRate ≠ .bad := by
   have hg := ok_not_invalid p i s h
   rcases hm with hm | hm
   · simp only [invalidGuarded, hm, commonBad, discreteBad, Bool.or_eq_false_iff,
       beq_eq_false_iff_ne, ne_eq] at hg
-    exact ⟨hg.1.1.1.1, hg.1.1.1.2, hg.2.1.2⟩
+    exact ⟨hg.1.1.1.1, hg.1.1.1.2, hg.2.1.1.2, hg.2.2⟩
   · simp only [invalidGuarded, hm, commonBad, discreteBad, Bool.or_eq_false_iff,
       beq_eq_false_iff_ne, ne_eq] at hg
-    exact ⟨hg.1.1.1.1.1, hg.1.1.1.1.2, hg.1.2.1.2⟩
+    exact ⟨hg.1.1.1.1.1, hg.1.1.1.1.2, hg.1.2.1.1.2, hg.1.2.2⟩
 
 /-- The only `TypeError`s of the chain are keyword errors: a keyword the method does not take, or a
 population-size dict with foreign keys.  Without those, every rejection is a `ValueError` or a
@@ -241,7 +244,7 @@ theorem rejection_clean (p : Params) (i : Input) (hk : foreignKeyword p = false)
     cases hm : p.method <;> simp only [hm] at hx <;>
       simp only [initGuards, List.mem_cons, List.mem_append, List.not_mem_nil, or_false,
         List.cons_append, List.nil_append] at hx <;>
-      rcases hx with hx | hx | hx | hx | hx | hx | hx | hx | hx | hx | hx | hx | hx | hx | hx | hx | hx
+      rcases hx with hx | hx | hx | hx | hx | hx | hx | hx | hx | hx | hx | hx | hx | hx | hx | hx | hx | hx | hx
         <;> (try subst hx) <;> simp_all [Outcome.clean]
 
 /-! ### Results -/
@@ -293,32 +296,50 @@ theorem valid_accepted :
     outcome (validParams .io) benignInput = .ok .ts ∧
     outcome (validParams .mx) benignInput = .ok .ts := by decide
 
-/-! ### What the code does *not* guard (the full statement fails) -/
+/-! ### The full statement, and the pre-fix chain as regression counter-example -/
 
 /-- The statement of the property for the parameter classes of the model: every parameter outside its
-valid range is rejected. -/
+valid range (a guarded invalid class, or a mutation rate that is not positive — whatever the method)
+is rejected. -/
 def C35_invalid_statement : Prop :=
   ∀ p i, (invalidGuarded p i = true ∨ p.mutationRate = .bad) → (outcome p i).rejected = true
 
-/-- **Counter-example (finding: the discrete methods never test `mutation_rate > 0`)**:
-`inside_outside` with every parameter valid except a mutation rate that is not positive passes all
-guards; the value reaches `scipy.stats.poisson.pmf`.  On the real code the run then either returns a
-dated tree sequence (e.g. `mutation_rate=0` on an input without mutations) or dies with an unrelated
-`ValueError("… dangling nodes …")` — reproduced by the harness. -/
-theorem discrete_nonpositive_rate_unguarded :
-    outcome { validParams .io with mutationRate := .bad } benignInput = .unvalidated ∧
-    outcome { validParams .mx with mutationRate := .bad } benignInput = .unvalidated := by decide
+/-- A mutation rate that is not positive is one of the guarded classes, for every method (since
+/repo a8b199f also for the discrete ones). -/
+theorem rate_bad_guarded (p : Params) (i : Input) (h : p.mutationRate = .bad) :
+    invalidGuarded p i = true := by
+  unfold invalidGuarded
+  cases hm : p.method <;> simp [commonBad, vgBad, discreteBad, h]
 
-theorem C35_invalid_statement_false : ¬ C35_invalid_statement := by
-  intro h
-  have := h { validParams .io with mutationRate := .bad } benignInput (Or.inr rfl)
-  revert this
+/-- **The full statement holds** of the present chain. -/
+theorem C35_invalid_statement_holds : C35_invalid_statement := by
+  intro p i h
+  rcases h with h | h
+  · exact invalid_rejected p i h
+  · exact invalid_rejected p i (rate_bad_guarded p i h)
+
+/-- Non-positive rates are rejected by the discrete methods with the documented `ValueError`
+(concrete instance; the general fact is `C35_invalid_statement_holds`). -/
+theorem discrete_nonpositive_rate_rejected :
+    outcome { validParams .io with mutationRate := .bad } benignInput = .valueError .rateNotPositive ∧
+    outcome { validParams .mx with mutationRate := .bad } benignInput = .valueError .rateNotPositive := by
   decide
 
-/-- The part of the statement that does hold: `invalid_rejected` above, i.e. the statement restricted
-to the guarded classes (everything it lists except the rate of the discrete methods). -/
-theorem C35_invalid_partial :
-    ∀ p i, invalidGuarded p i = true → (outcome p i).rejected = true := invalid_rejected
+/-- **Regression counter-example (finding fixed by a8b199f)**: in the chain *without* the
+`mutation_rate > 0` guard of `DiscreteTimeMethod.main_algorithm`, `inside_outside` / `maximization`
+with every parameter valid except a non-positive rate pass all guards; the value reached
+`scipy.stats.poisson.pmf` (on the real pre-fix code: a dated tree sequence for `mutation_rate=0` on an
+input without mutations, otherwise an unrelated `ValueError("… dangling nodes …")`). -/
+theorem prefix_discrete_nonpositive_rate_unguarded :
+    outcomePreFix { validParams .io with mutationRate := .bad } benignInput = .unvalidated ∧
+    outcomePreFix { validParams .mx with mutationRate := .bad } benignInput = .unvalidated := by decide
+
+/-- What is still not guarded: a negative (or NaN) `eps` of the discrete methods reaches the numeric
+code (on the real code it is stopped only by the unrelated "dangling nodes" `ValueError`). It is not
+among the invalid classes the property statement lists. -/
+theorem discrete_negative_eps_unguarded :
+    outcome { validParams .io with eps := .bad } benignInput = .unvalidated ∧
+    outcome { validParams .mx with eps := .bad } benignInput = .unvalidated := by decide
 
 /-! ### Non-vacuity -/
 
